@@ -111,20 +111,20 @@ CHECKS = {
 EXTRA = {
  "C01": "Workloads W11/W12 add stop, reset-on-stopped, late finishes and four streams recycling pooled stream state; ClosedStream or silent discard on a stream nobody ended is a violation.",
  "C11": "Variants: a previous stream of the same kind recycled in four ways; a 4-byte stream window with a receiver that never reads (Blocked / partial writes, Stopped takes precedence); a settling tail after every sequence with a send-stream count invariant.",
- "C12": "The BBR search also starts from a warmed-up controller in recovery with small packets and burst losses.",
+ "C12": "At every emission the window of a built-in controller is at least two datagrams of the current MTU (also Cubic with the smallest initial window). The BBR search also starts from a warmed-up controller in recovery with small packets and burst losses.",
  "C17": "The async part probes stale early handles through stopped() before any id reuse, for unidirectional and bidirectional early streams.",
- "C15": "Also a full address change to a path with 60 / 250 ms more one-way delay: a genuine slower path that keeps answering must not be given up.",
- "C18": "S4 includes an early bidirectional stream whose stale handles are dropped while the retry stream's response is unread. Scenario S6: the only permitted stream is stopped by the peer and its handle dropped while the connection is completely idle; the next open_uni must still complete.",
- "C19": "The quinn endpoint's share (RecvState::poll_socket splitting coalesced receive batches by stride) is explored under the deterministic executor of harness-async over an in-memory socket that coalesces like a GRO-capable kernel, every schedule with <=1 (2) deviations; no packet may be declared lost on a lossless FIFO network.",
+ "C15": "Once a challenge went to the new address any single disturbed datagram must still end in validation. Also a full address change to a path with 60 / 250 ms more one-way delay: a genuine slower path that keeps answering must not be given up.",
+ "C18": "Handle-drop variant: the endpoint is closed while an Incoming is held and that Incoming is accepted afterwards. S4 includes an early bidirectional stream whose stale handles are dropped while the retry stream's response is unread. Scenario S6: the only permitted stream is stopped by the peer and its handle dropped while the connection is completely idle; the next open_uni must still complete.",
+ "C19": "Mixed receive batches on real sockets: a segmentation-offloaded burst and a plain datagram back to back, read with full batches. The quinn endpoint's share (RecvState::poll_socket splitting coalesced receive batches by stride) is explored under the deterministic executor of harness-async over an in-memory socket that coalesces like a GRO-capable kernel, every schedule with <=1 (2) deviations; no packet may be declared lost on a lossless FIFO network.",
  "C02": "One-sided drop masks (every subset of ten consecutive datagrams of one side) and mid-transfer windows for flow-control-limited configurations, so that credit frames and their retransmissions are lost together. A busy-polling driver (extra transmit polls every 50/100/1000 us of virtual time) must make the same progress for rate-limited and window-limited senders.",
  "C03": "Handshake datagrams damaged in transit (original lost, mutated copy arrives, retransmission follows) under the no-panic oracle. Reassembly memory is read through the probe hook after every case (allocated <= 3 x distinct outstanding bytes + 64 KiB per buffer); thorough adds ordered triples.",
  "C04": "The replay window (Dedup) is searched through every insert history over two packet-number alphabets against the set of numbers seen (E1). Retry probes include a second Retry whose tag verifies against the CID in use after the first, and a Retry right behind the server's first datagram cut down to its Initial packet; early datagrams damaged in transit (original lost, mutated copy arrives) must be recovered from.",
  "C05": "Also 0-RTT cases (rejected with lower limits, accepted with higher ones) and asymmetric initial_max_stream_data_* values installed through a transport-parameter override; the ledger reads the parameters actually sent.",
  "C06": "Unordered reads are part of the reference model (data, ordered read, unordered read). Macro operation: the peer keeps sending on a stream the application stopped. Window operations include shrink, partial and full regrow; advertised credit is bounded by consumed + the largest window in effect since the debt was incurred; unread datagram bytes never exceed the configured buffer.",
- "C07": "Undersized Initials are enumerated for destination CIDs of 0/1/4/7/9/20 bytes with and without a token. Spoofed rebinding: while the server is the bulk sender a copy of a client datagram arrives from the same IP / another port at every step of a window; bytes sent to the unvalidated address stay below 3x what was received from it. Coalesced undecryptable packets are counted once.",
- "C08": "Wire oracle: the application's own close frame (0x1d) only in 1-RTT / 0-RTT packets. Also an exact stateless reset reaching the closing side after its close, a doubly migrated client, and late senders (the peer vanishes, the application keeps writing): the sender's own idle timeout must fire within the negotiated period after the last packet received.",
- "C09": "E1: the ring of peer-issued connection IDs (CidQueue) through every NEW_CONNECTION_ID / switch history until the canonical state space closes, against a map model. At the end of every execution one datagram per (drained connection, CID it had) is presented again and must not reach a connection, and the server's stateless reset for the CID in use is sent to every surviving client connection in turn and must end exactly that one.",
- "C13": "Peers advertising max_udp_payload_size beyond 16 bits (transport-parameter override). A client address change at every step of a window runs path validation while datagrams are queued. Workload W13 queues more near-maximum datagrams than a congestion window; at the end nothing may sit in the datagram send queue with nothing in flight. path_changed() configurations; estimate and every 1-RTT datagram stay within the peer's max_udp_payload_size.",
+ "C07": "A path-challenge token is never shown to a second address (wire oracle). Undersized Initials are enumerated for destination CIDs of 0/1/4/7/9/20 bytes with and without a token. Spoofed rebinding: while the server is the bulk sender a copy of a client datagram arrives from the same IP / another port at every step of a window; bytes sent to the unvalidated address stay below 3x what was received from it. Coalesced undecryptable packets are counted once.",
+ "C08": "A resumed session with a remembered shorter idle timeout must use the newly negotiated one. Wire oracle: the application's own close frame (0x1d) only in 1-RTT / 0-RTT packets. Also an exact stateless reset reaching the closing side after its close, a doubly migrated client, and late senders (the peer vanishes, the application keeps writing): the sender's own idle timeout must fire within the negotiated period after the last packet received.",
+ "C09": "Retry scenarios for CID lengths 0/8/1/20. E1: the ring of peer-issued connection IDs (CidQueue) through every NEW_CONNECTION_ID / switch history until the canonical state space closes, against a map model. At the end of every execution one datagram per (drained connection, CID it had) is presented again and must not reach a connection, and the server's stateless reset for the CID in use is sent to every surviving client connection in turn and must end exactly that one.",
+ "C13": "A close with a 4000-byte reason at every step must stay within the path MTU. Peers advertising max_udp_payload_size beyond 16 bits (transport-parameter override). A client address change at every step of a window runs path validation while datagrams are queued. Workload W13 queues more near-maximum datagrams than a congestion window; at the end nothing may sit in the datagram send queue with nothing in flight. path_changed() configurations; estimate and every 1-RTT datagram stay within the peer's max_udp_payload_size.",
  "C14": "Client-side Retry probes at every step index (verifying tag, second Retry verifying against the CID in use, Retry behind a lone server Initial, every tag bit flipped): followed at most once and never after a server packet was accepted. Bloom-log lifetimes 10 s / 1.5 s / 0.7 s.",
  "C16": "Admission sweep also for unequal connection-ID lengths of the two peers. The path shrinks while 44 near-maximum datagrams are queued: nothing may stay queued. Queue sequences also start in 0-RTT (accepted / rejected, also window-limited so that early datagrams are still queued when the answer arrives); an empty send queue must account for zero bytes.",
  "C20": "Every NEW_TOKEN token the server emits decodes to an issue time equal to the supplied clock's reading. The drained part also drains the closing side early by its peer's stateless reset. Script-free histories (incl. senders capped at 2 / 20 kB/s) are re-driven by a busy-polling loop (extra transmit polls every 20/50/100/1000 us) and must give the same events and loss counters; zero-latency histories (nanosecond RTT) and silent-peer histories under CID rotation bound timer re-arming.",
